@@ -92,6 +92,18 @@ def block_world(ctx, eng, st, mode, bg_known, W, H):
         return [((im, rgb, al), s)]
     eng.methods[("BlockImage", "_get_render_data")] = get_render_data
 
+    def getextrema(e, s, recv, a, k):
+        # per band (min, max) of the IMAGE handed back - whose alpha band is the un-rounded one: with round_alpha only the list `a` is
+        # thresholded to 0 / 255, so the band's minimum says nothing about whether `a` holds a zero
+        n = e.sym_int("band_extrema")
+        bands = []
+        for i in range(4 if s.H(recv).get("mode") == "RGBA" else 3):
+            lo, hi = z3.Int(f"{n}_lo{i}"), z3.Int(f"{n}_hi{i}")
+            s.pc += [lo >= 0, lo <= hi, hi <= 255]
+            bands.append((lo, hi))
+        return [(tuple(bands), s)]
+    eng.methods[("PIL.Image", "getextrema")] = getextrema
+
     def close_image(e, s, recv, a, k):
         s = e.fork(s)
         s.ghost["closed"] = s.ghost["closed"] + [a[0].id]
